@@ -420,51 +420,29 @@ Fixpoint may_fault (t : node) : bool :=
 (* ---------- tree predicates used as hypotheses of the C04 theorems ---------- *)
 (* (checked on every tree exported from the implementation by leg c04-analysis) *)
 
-(* [safe noref t]: no capture of negative length can reach a back-reference.
-   runner.go:2030 transferCapture (Spec.balance_span) records a NEGATIVE length when the balanced group
-   lies to the right of the text just matched; a back-reference to such a capture moves the position
-   backwards in Spec.sem_ref (and faults in runner.go:1319 refmatch).  noref = true: the tree has no
-   back-reference at all; noref = false: no balancing group that records a capture ((?<g-u>...), g named). *)
-Fixpoint safe (noref : bool) (t : node) : bool :=
-  match t with
-  | NRef _ _ => negb noref
-  | NConcat _ l => forallb (safe noref) l
-  | NAlternate _ l => forallb (safe noref) l
-  | NLoop _ _ _ _ r => safe noref r
-  | NGroup r => safe noref r
-  | NPosLook _ r => safe noref r
-  | NNegLook _ r => safe noref r
-  | NAtomic r => safe noref r
-  | NCapture _ g u r => (noref || (u =? -1) || (g =? -1)) && safe noref r
-  | NBackRefCond _ _ yes no => safe noref yes && match no with Some n => safe noref n | None => true end
-  | NExprCond _ c yes no => safe noref c && safe noref yes && match no with Some n => safe noref n | None => true end
-  | _ => true
-  end.
-
-(* [shape_ok noref d t]: every node outside a lookaround has direction d (d = true: right-to-left; the
+(* [shape_ok d t]: every node outside a lookaround has direction d (d = true: right-to-left; the
    parser only changes direction inside lookarounds: RightToLeft is a top-level-only option,
-   parser.go:1951 isOnlyTopOption), loop counts satisfy 0 <= m <= n, alternations are non-empty,
-   conditionals have both branches (tree.go:533, :546), and [safe noref] holds throughout. *)
-Fixpoint shape_ok (noref d : bool) (t : node) : bool :=
+   parser.go:1951 isOnlyTopOption), loop counts satisfy 0 <= m <= n, alternations are non-empty and
+   conditionals have both branches (tree.go:533, :546).  Nothing is required inside lookarounds and
+   inside the condition of an expression conditional (their effect on the position is undone). *)
+Fixpoint shape_ok (d : bool) (t : node) : bool :=
   match t with
   | NChar _ o _ => Bool.eqb (is_rtl o) d
   | NCharLoop _ _ o _ m n => Bool.eqb (is_rtl o) d && (0 <=? m) && (m <=? n)
   | NMulti o _ => Bool.eqb (is_rtl o) d
-  | NRef o _ => negb noref && Bool.eqb (is_rtl o) d
-  | NConcat _ l => forallb (shape_ok noref d) l
-  | NAlternate _ l => match l with [] => false | _ => forallb (shape_ok noref d) l end
-  | NLoop _ _ m n r => (0 <=? m) && (m <=? n) && shape_ok noref d r
-  | NCapture _ g u r => (noref || (u =? -1) || (g =? -1)) && shape_ok noref d r
-  | NGroup r => shape_ok noref d r
-  | NAtomic r => shape_ok noref d r
-  | NPosLook _ r => safe noref r
-  | NNegLook _ r => safe noref r
-  | NBackRefCond _ _ yes no => shape_ok noref d yes && match no with Some n => shape_ok noref d n | None => false end
-  | NExprCond _ c yes no => safe noref c && shape_ok noref d yes && match no with Some n => shape_ok noref d n | None => false end
+  | NRef o _ => Bool.eqb (is_rtl o) d
+  | NConcat _ l => forallb (shape_ok d) l
+  | NAlternate _ l => match l with [] => false | _ => forallb (shape_ok d) l end
+  | NLoop _ _ m n r => (0 <=? m) && (m <=? n) && shape_ok d r
+  | NCapture _ _ _ r => shape_ok d r
+  | NGroup r => shape_ok d r
+  | NAtomic r => shape_ok d r
+  | NPosLook _ _ => true
+  | NNegLook _ _ => true
+  | NBackRefCond _ _ yes no => shape_ok d yes && match no with Some n => shape_ok d n | None => false end
+  | NExprCond _ _ yes no => shape_ok d yes && match no with Some n => shape_ok d n | None => false end
   | NAnchor _ | NNothing | NEmpty | NBump => true
   end.
-
-Definition tree_ok (d : bool) (t : node) : bool := shape_ok true d t || shape_ok false d t.
 
 (* no literal carries the IgnoreCase bit (tree.go:480-482 clears it on everything but back-references) *)
 Fixpoint no_ci_lit (t : node) : bool :=
